@@ -24,6 +24,7 @@
   the level of its algorithm and tied to the real library by the differential correspondence only.
 -/
 import SA.Proofs.Codec
+import SA.Gen.PkgVars
 namespace SA.Codec
 
 /-! ## side conditions on the regenerated facts -/
@@ -383,3 +384,15 @@ end SA.Codec
 #print axioms SA.Codec.C08_partial
 #print axioms SA.Codec.C08_results_independent
 #print axioms SA.Codec.C08_seq_line_pointwise
+
+namespace SA.PkgState
+/-- **no_hidden_process_state**: the models of this property are functions of their arguments and of the objects they are
+    handed; the packages they model keep no package-level variables besides these (regenerated inventory: error
+    sentinels, tables, compiled patterns, the two session time-outs).  A new package-level variable — a counter, a cache, a
+    scratch buffer, a shared map, a registry — would make later calls depend on earlier ones, or concurrent calls on each
+    other, outside anything a per-call comparison of model and code can see. -/
+theorem C08_no_hidden_process_state :
+    Gen.pkgVarNames_enc = ["Base128Encoding", "Base192Encoding", "Base32Encoding", "Base64Encoding", "Base64uEncoding", "Base85Encoding", "Base91Encoding", "RawEncoding", "cb128Invert", "cbInitialized", "iodineBase32Encoding", "iodineBase64Encoding", "iodineBase64uEncoding", "iodineBase91Encoding"] := by decide
+end SA.PkgState
+
+#print axioms SA.PkgState.C08_no_hidden_process_state
